@@ -756,15 +756,20 @@ def oracle_depth(case):
     out.sample = dict(view="depth", units=case["units"], text=text[:500])
     mc = case.get("mnemonic_case", "upper")
     out.cls("depth-mnemonic_case-" + mc)
+    rkw = {}
+    if case.get("ignore_data"):
+        # the header alone says which unit the index is in: reading without the data changes no unit
+        rkw["ignore_data"] = True
+        out.cls("depth-ignore_data")
     if case.get("reuse"):
         # the LASFile has read a file in feet before: the index unit is that of the file read LAST
         obj = attempt(lasio.read, "~V\nVERS. 2.0 : v\nWRAP. NO : w\n~W\nSTRT.FT 1 : s\nSTOP.FT 2 : s\nSTEP.FT 1 : s\nNULL. -999.25 : n\n~C\nDEPT.FT : d\n~A\n1\n2\n")
-        las = obj if is_raised(obj) else attempt(obj.read, io.StringIO(text), mnemonic_case=mc)
+        las = obj if is_raised(obj) else attempt(obj.read, io.StringIO(text), mnemonic_case=mc, **rkw)
         if not is_raised(las):
             las = obj
         out.cls("depth-second-read-into-the-same-object")
     else:
-        las = attempt(lasio.read, io.StringIO(text), mnemonic_case=mc)
+        las = attempt(lasio.read, io.StringIO(text), mnemonic_case=mc, **rkw)
     if is_raised(las):
         out.rejected = True
         out.cls("rejected:" + las.bucket)
@@ -776,7 +781,7 @@ def oracle_depth(case):
         out.rejected = True
         out.cls("rejected:units-parsed-differently")
         return out
-    idx = [float(t) for t in case["index"]]
+    idx = [float(t) for t in case["index"]] if not rkw else []
     if len(las.curves) == 0 or not close(las.index, idx):
         out.rejected = True
         out.cls("rejected:index-parsed-differently")
@@ -921,6 +926,8 @@ def depth_cases(draw):
         case["pad"] = draw(st.sampled_from([" ", "  "]))
     if LB.roll(draw, 5) == 0:
         case["reuse"] = True
+    if draw(st.integers(0, 5)) == 0:
+        case["ignore_data"] = True
     return case
 
 
@@ -943,6 +950,8 @@ def depth_grid(tier):
         yield dict(view="depth", src="gen", units=[s, None, None, "unknown"], index=idx)
         yield dict(view="depth", src="gen", units=[s, s, s, ""], index=idx, mnemonic_case="lower")
         yield dict(view="depth", src="gen", units=[s, s, s, s], index=idx, reuse=True)
+        yield dict(view="depth", src="gen", units=["", "", "", s], index=idx, ignore_data=True)
+        yield dict(view="depth", src="gen", units=[s, None, None, "unknown"], index=idx, ignore_data=True)
     for f in FAMILIES:
         for g in FAMILIES:
             if f != g:
